@@ -333,3 +333,13 @@ def proof_coverage(report, res, theorems, extra_trusted=()):
     report.coverage['checker_cmd'] = res.cmd
     report.coverage['trusted_base'] = BASE_TRUSTED + list(extra_trusted)
     report.coverage['theorems'] = [{'name': n, 'closed': c, 'assumptions': a} for n, c, a in res.theorems]
+
+
+def coqchk(prop_file, timeout=1500):
+    """independent re-check of the compiled property file and everything it depends on;
+    returns the tail of coqchk -o (axiom summary)."""
+    mod = 'Wpull.' + prop_file[:-2].replace('/', '.')
+    p = subprocess.run(['timeout', str(timeout), 'coqchk', '-silent', '-o', '-Q', COQ, 'Wpull', mod],
+                       cwd=COQ, stdout=subprocess.PIPE, stderr=subprocess.STDOUT, text=True)
+    tail = p.stdout.strip().splitlines()[-25:]
+    return {'rc': p.returncode, 'summary': tail}
